@@ -28,7 +28,8 @@ from .c17b import strip_bb, strip_ref_ty
 PROP = "C15"
 CONFIGS = {"quick": ["dbg", "feat"], "thorough": ["dbg", "rel", "feat", "w32", "nostd"]}
 LEVEL = ("Static agreement of sibling forms, for all 2 700+ operator impl bodies: (R15.1) every form of a family "
-         "(trait, operand base types) reaches the same set of kernel functions through adapters/delegation only; "
+         "(trait, operand base types) reaches the same set of kernel functions through adapters/delegation only, "
+         "and (R15.1b) so do the per-ownership operator impls on TypedRepr/TypedReprRef underneath UBig/IBig; "
          "(R15.2) every *Assign form reaches the kernels of its value family, by take-delegation, forwarding, or "
          "(hand-written) with an equal effect summary; (R15.3) delegating forms pass their operands in order "
          "(swaps only in reviewed commutative families) and contain nothing but conversions, one delegation and "
@@ -109,6 +110,8 @@ KERNEL_ALIASES = [
     (re.compile(r"dashu_int::modular::add::sub_in_place_swap"), "dashu_int::modular::add::sub_in_place"),
     (re.compile(r"dashu_float::add::<impl dashu_float::repr::Context<R>>::repr_add_small_large"), "dashu_float::add::<impl dashu_float::repr::Context<R>>::repr_add_large_small"),
     (re.compile(r"dashu_float::utils::split_digits_ref"), "dashu_float::utils::split_digits"),
+    # reviewed: the by-reference shifts allocate the result instead of shifting in place
+    (re.compile(r"dashu_int::shift_ops::repr::(sh[lr])_large_ref$"), r"dashu_int::shift_ops::repr::\1_large"),
 ]
 
 
@@ -189,6 +192,8 @@ def run(res, programs, tier):
         cfgname = P.name
         F = Forms(P)
         _r15_1(res, P, cfgname, F)
+        if "dashu_int" in P.units:
+            _r15_1b(res, P, cfgname)
         _r15_2(res, P, cfgname, F)
         _r15_3(res, P, cfgname, F)
         _r15_4(res, P, cfgname)
@@ -239,6 +244,65 @@ def _r15_1(res, P, cfgname, F):
                      % (key[1], key[2], key[3], key[4], minority[1][0], sorted(minority[0])[:4], sorted(major[0])[:4], diff[:4]),
                      span_loc(F.forms[minority[1][0]]["sp"]))
     res.floor("R15.1", cfgname, n, 2000, "operator impl bodies")
+
+
+# R15.1b  the same agreement one level down.  The public forms of UBig / IBig all end in an operator
+# impl on TypedRepr / TypedReprRef (`mod repr` of add_ops, mul_ops, bits, ...), again written once per
+# ownership combination; R15.1 folds those four impls into one kernel name, so a difference *between*
+# them is invisible to it.  Here each such impl is a form and its kernels are the private free
+# functions of its own `mod repr` (add_large, and_not_large, ...), followed through delegation to a
+# sibling impl.  New private helpers are spliced into their callers by facts._inline_new_helpers, so
+# a fresh ownership variant of a kernel shows up as a form that no longer reaches the shared kernel.
+def _r15_1b(res, P, cfgname):
+    res.rule("R15.1b", "the per-ownership operator impls on TypedRepr / TypedReprRef (the repr level under UBig / IBig) of one (trait, operand) family reach the same private kernels of their module, directly or by delegating to a sibling impl")
+    fams = defaultdict(list)
+    byp = {}
+    for f in P.fns():
+        st = f.get("self_ty", "")
+        if f["kind"] == "Closure" or not f.get("trait") or "dashu_int::repr::TypedRepr" not in st:
+            continue
+        key = (f["crate"], trait_name(f), f["name"], base_ty(st).replace("TypedReprRef", "TypedRepr"), base_ty(rhs_ty(f)).replace("TypedReprRef", "TypedRepr"))
+        fams[key].append(f)
+        byp[f["p"]] = (key, f)
+    memo = {}
+
+    def sig(f, key, stack=()):
+        if f["p"] in memo:
+            return memo[f["p"]]
+        mod = f["p"].split("<impl")[0]
+        ks = set()
+        for bb, t, fr in mir.iter_calls(f["mir"]):
+            cp = fr and (fr.get("rp") or fr["p"])
+            if not cp:
+                continue
+            if cp in byp and byp[cp][0] == key and cp != f["p"] and cp not in stack:
+                ks |= sig(byp[cp][1], key, stack + (f["p"],))
+            elif cp.startswith(mod) and "<impl" not in cp:
+                ks.add(alias(norm(cp)))
+        memo[f["p"]] = frozenset(ks)
+        return memo[f["p"]]
+
+    n = 0
+    for key, fs in sorted(fams.items()):
+        if len(fs) < 2:
+            continue
+        sigs = defaultdict(list)
+        for f in fs:
+            sigs[sig(f, key)].append(f)
+        n += len(fs)
+        k = "repr-level family %s::%s %s x %s [%s]" % (key[1], key[2], key[3], key[4], key[0])
+        if len(sigs) == 1:
+            ks = next(iter(sigs))
+            res.ok("R15.1b", cfgname, k, nontrivial=bool(ks), sample=dict(family=list(key), forms=len(fs), kernels=sorted(x.rsplit("::", 1)[-1] for x in ks)))
+        else:
+            groups = sorted(sigs.items(), key=lambda kv: len(kv[1]))
+            minority, major = groups[0], groups[-1]
+            diff = sorted(x.rsplit("::", 1)[-1] for x in set(minority[0]) ^ set(major[0]))
+            res.fail("R15.1b", cfgname, k,
+                     "%s reaches the module kernels %s while its %d sibling ownership forms reach %s (difference %s): for the operand shapes handled by that kernel this form computes its result by other code than `%s` does"
+                     % (minority[1][0]["p"], sorted(x.rsplit("::", 1)[-1] for x in minority[0]), len(major[1]), sorted(x.rsplit("::", 1)[-1] for x in major[0]), diff, major[1][0]["p"]),
+                     span_loc(minority[1][0]["sp"]))
+    res.floor("R15.1b", cfgname, n, 50, "repr-level operator impl bodies")
 
 
 VALUE_OF = {"AddAssign": "Add", "SubAssign": "Sub", "MulAssign": "Mul", "DivAssign": "Div", "RemAssign": "Rem",
